@@ -31,6 +31,29 @@ def range_queries(m):
                 raise ContractViolation(F, "C06 a query that contains a time later than the current time is refused", (plural.__name__, times, t))
             if got != [single(q) for q in times]:
                 raise ContractViolation(F, "C06 one value per requested time, each the value recorded for that time", (plural.__name__, times, got))
+    # every public getter returns what is stored in ITS OWN series (values may be None only for mid and last-trade prices, else the getter refuses)
+    table = [("get_market_price", "get_market_prices", "_market_prices", False), ("get_mid_price", "get_mid_prices", "_mid_prices", True),
+             ("get_last_executed_price", "get_last_executed_prices", "_last_executed_prices", True), ("get_fundamental_price", "get_fundamental_prices", "_fundamental_prices", False),
+             ("get_executed_volume", "get_executed_volumes", "_executed_volumes", False), ("get_executed_total_price", "get_executed_total_prices", "_executed_total_prices", False),
+             ("get_n_buy_order", "get_n_buy_orders", "_n_buy_orders", False), ("get_n_sell_order", "get_n_sell_orders", "_n_sell_orders", False)]
+    for one, many, field, allow_none in table:
+        raw = getattr(m, field)
+        for q in range(t + 1):
+            try:
+                got = getattr(m, one)(q)
+            except AssertionError:
+                if raw[q] is None and not allow_none:
+                    continue
+                raise ContractViolation("Market." + one, "C06 a recorded value is returned for a past or current time", (q, raw[q]))
+            if got != raw[q]:
+                raise ContractViolation("Market." + one, f"C06/C08 the getter returns the value recorded in {field}", dict(time=q, got=got, recorded=raw[q]))
+        if all(raw[q] is not None for q in range(t + 1)) or allow_none:
+            if getattr(m, many)(list(range(t + 1))) != list(raw[: t + 1]):
+                raise ContractViolation("Market." + many, f"C06/C08 the getter returns the values recorded in {field}", dict(got=getattr(m, many)(list(range(t + 1))), recorded=list(raw[: t + 1])))
+    bb = min(m.buy_order_book.priority_queue).price if m.buy_order_book.priority_queue else None
+    bs = min(m.sell_order_book.priority_queue).price if m.sell_order_book.priority_queue else None
+    if m.get_best_buy_price() != bb or m.get_best_sell_price() != bs:
+        raise ContractViolation("Market.get_best_buy_price", "C08 best bid / ask are the prices of the highest-priority resting orders of their own side", dict(bid=m.get_best_buy_price(), ask=m.get_best_sell_price(), book_bid=bb, book_ask=bs))
     # C08: VWAP at any recorded time = turnover up to that time / executed volume up to that time (NaN before the first fill)
     import math
     for q in range(t + 1):
